@@ -54,6 +54,9 @@ impl Call {
 
 pub const CREATED_NAME: &str = "created-under-crash";
 
+/// When set (by C14), every recovery (reopen, load, re-offer) is run under the log monitor and scanned for these values.
+pub static MONITOR: std::sync::Mutex<Option<Vec<(String, Vec<u8>)>>> = std::sync::Mutex::new(None);
+
 #[derive(Debug, Clone, Serialize, Deserialize)]
 pub struct History {
     pub db: String,
@@ -347,8 +350,24 @@ pub fn enumerate(rep: &mut Report, prop: &str, hist_name: &str, db0: &Path, gid:
                 }
                 // 3. offering the interrupted call again, then all later ones, ends like the uninterrupted run
                 let mut results = Vec::new();
+                let monitor = MONITOR.lock().unwrap().clone();
+                if monitor.is_some() {
+                    crate::logcap::begin();
+                }
                 for (_, call) in &calls[*idx..] {
-                    results.push(do_call(mm, gid, keys, call));
+                    let r = do_call(mm, gid, keys, call);
+                    if monitor.is_some() {
+                        crate::logcap::note(r.clone());
+                    }
+                    results.push(r);
+                }
+                if let Some(secrets) = &monitor {
+                    let recs = crate::logcap::end();
+                    for l in crate::logcap::scan(&recs, secrets) {
+                        findings.lock().unwrap().push((format!("C14|{l}"), format!("sensitive value in a log record / result while recovering from a crash at {site}: {l}"), json!({"site": site, "k": k})));
+                    }
+                    points.fetch_add(recs.len() as u64, std::sync::atomic::Ordering::Relaxed);
+                    continue;
                 }
                 let fin = normalized(&c, gid);
                 let mut my_sig: Option<(String, String)> = None;
@@ -780,4 +799,28 @@ pub fn creator_history(rep: &mut Report, thorough: bool) {
     rep.transitions += p;
     rep.add_count("crash_points_creator", p);
     let _ = std::fs::remove_dir_all(&dir);
+}
+
+/// C14 on crash recovery: the histories of C12 with every recovery run under the log monitor.
+pub fn check_c14_recovery(rep: &mut Report) {
+    let m = ["A", "B", "C", "E", "Z"];
+    let ad = ["A", "B"];
+    let msg = |a: &str, c: &str| act(a, ActKind::Msg(c.into()), 5);
+    let sc = base("crash-logs", &m, &ad, &[], vec![msg("C", "m0"), act("A", ActKind::Relays(vec!["wss://n1.example".into()]), 10).then(vec![msg("C", "m1")]), act("B", ActKind::Rename("loser".into()), 20)]);
+    let Ok(w) = build_world(&sc, Bk::Sqlite) else {
+        rep.machinery_errors.push("c14 recovery world".into());
+        return;
+    };
+    let ev = |s: &str| w.pool.iter().find(|p| p.label.starts_with(s)).map(|p| p.event.clone()).unwrap_or_else(|| panic!("no pool event {s}"));
+    let z = &w.initial["Z"];
+    let Mdk::Sql(_, zf) = &z.mdk else { return };
+    let calls: Vec<(String, Call)> = vec![
+        ("application".into(), Call::Process(ev("n.C.msg0"))),
+        ("commit".into(), Call::Process(ev("n.B.rename2"))),
+        ("commit-with-rollback".into(), Call::Process(ev("n.A.relays1"))),
+        ("application-after-rollback".into(), Call::Process(ev("n1.C.msg0"))),
+    ];
+    *MONITOR.lock().unwrap() = Some(w.secrets.clone());
+    enumerate(rep, "C14", "recovery-logs", &zf.path, &w.gid, &z.keys, None, calls, None, false);
+    *MONITOR.lock().unwrap() = None;
 }
